@@ -223,7 +223,7 @@ Print Assumptions C05_snapshot_verified.
 Definition ex_fh2 (h : Z) : Z := if h <? 0 then 0 else 200 + h.
 Theorem C05_stale_entry_refuted :
   exists (ops : list xop) (c : call) (f : Z),
-    let st0 := {| base := {| cache := []; db := []; dbq := [] |}; hdrs := ex_fh; xbest := 5; stale := false |} in
+    let st0 := {| base := {| cache := []; db := []; dbq := [] |}; hdrs := ex_fh; xbest := 5; stale := false; envbad := false |} in
     let st := xfinal ex_Hf (fun _ => 10) 1000 true st0 ops in
     o_res (snd (xstep ex_Hf (fun _ => 10) 1000 true st (XBase (Call c)))) = RFilter f /\
     verified ex_Hf (hdrs st) (c_blk c) f = false /\ stale st = true.
@@ -237,30 +237,133 @@ Proof.
 Qed.
 Print Assumptions C05_stale_entry_refuted.
 
-(* UNLESS: in every history with rewrites, as long as the ghost flag is clear
-   (no rewrite has invalidated an entry of cache, database or queue), every
-   filter returned — network, cache or database — and every filter visible in
-   cache and database satisfies the relation for the headers committed NOW. *)
+(* UNLESS: in every history with rewrites, GetBlock calls and database lookups
+   overlapped by other writers, as long as the ghost flags are clear (no
+   rewrite has invalidated an entry of cache, database or queue; the
+   overlapping writers stored verified filters only), every filter returned —
+   network, cache or database — and every filter visible in cache and database
+   satisfies the relation for the headers committed NOW. *)
 Theorem C05_every_history_unless : forall Hf fsize cap persist ops1 o st0,
   xinv Hf st0 ->
   let st := xfinal Hf fsize cap persist st0 ops1 in
   stale (fst (xstep Hf fsize cap persist st o)) = false ->
+  envbad (fst (xstep Hf fsize cap persist st o)) = false ->
   let fh' := hdrs (fst (xstep Hf fsize cap persist st o)) in
   let ob := snd (xstep Hf fsize cap persist st o) in
-  (forall c f, o = XBase (Call c) -> o_res ob = RFilter f -> verified Hf fh' (c_blk c) f = true) /\
+  (forall c f, call_of o = Some c -> o_res ob = RFilter f -> verified Hf fh' (c_blk c) f = true) /\
   (forall b f, In (b, f) (o_cache ob) -> verified Hf fh' b f = true) /\
   (forall b f, In (b, f) (o_db ob) -> verified Hf fh' b f = true).
 Proof. exact every_history_unless. Qed.
 Print Assumptions C05_every_history_unless.
 
-(* The monitors of the correspondence run accept every model trace with
-   rewrites: the core monitor (old entries exempt) always, the strict one
-   whenever the ghost flag is clear at the end of the history. *)
+(* The monitors of the correspondence run accept every model trace: the core
+   monitor (old entries exempt) always, the strict one whenever the ghost
+   flags are clear at the end of the history. *)
 Theorem C05_model_holds_rewrites : forall Hf fsize cap persist strict ops st sv i,
   0 <= xbest st < two32 -> xops_wf ops ->
-  (strict = true -> stale (xfinal Hf fsize cap persist st ops) = false) -> xinv Hf st ->
+  (strict = true -> stale (xfinal Hf fsize cap persist st ops) = false /\
+                    envbad (xfinal Hf fsize cap persist st ops) = false) -> xinv Hf st ->
   (forall p, In p (dbq (base st)) -> In p sv) ->
   xfirst_bad Hf strict (hdrs st) (xbest st) i (cache_view (cache (base st))) (db (base st)) sv
     (combine ops (xrun Hf fsize cap persist st ops)) = None.
 Proof. exact xfirst_bad_model. Qed.
 Print Assumptions C05_model_holds_rewrites.
+
+(* A retry after the committed headers were rewritten.  Whatever was asked,
+   answered or failed before the rewrite — in particular a query for the very
+   same range — a filter that the retry fetches from the network satisfies the
+   relation for the REWRITTEN headers: the code keeps no header range from one
+   query to the next. *)
+Theorem C05_retry_after_rewrite : forall Hf fsize cap persist st0 ops1 c1 nb nf c f,
+  let st := xfinal Hf fsize cap persist st0 (ops1 ++ [XBase (Call c1); XRewrite nb nf]) in
+  let ob := snd (xstep Hf fsize cap persist st (XBase (Call c))) in
+  o_res ob = RFilter f -> o_queried ob = true -> verified Hf nf (c_blk c) f = true.
+Proof. exact retry_after_rewrite. Qed.
+Print Assumptions C05_retry_after_rewrite.
+
+(* ------------------------------------------------------------------ *)
+(* GetBlock is no producer of filters: it leaves filter cache, filter database
+   and writer queue (and the ghost flags) exactly as they were ... *)
+Theorem C05_getblock_leaves_filters_alone : forall Hf fsize cap persist st b,
+  xstep Hf fsize cap persist st (XGetBlock b) = (st, mk_obs (base st) RNone false (0, 0) []).
+Proof. exact getblock_unchanged. Qed.
+Print Assumptions C05_getblock_leaves_filters_alone.
+
+(* ... so GetBlock calls anywhere in a history are invisible to GetCFilter:
+   deleting them changes neither the final state nor any other observation
+   (what GetCFilter(B) returns after GetBlock(B) is what it returns without). *)
+Theorem C05_getblock_transparent : forall Hf fsize cap persist ops st,
+  xfinal Hf fsize cap persist st (filter not_getblock ops) = xfinal Hf fsize cap persist st ops /\
+  xrun Hf fsize cap persist st (filter not_getblock ops) =
+    map snd (filter (fun p => not_getblock (fst p)) (combine ops (xrun Hf fsize cap persist st ops))).
+Proof. exact getblock_transparent. Qed.
+Print Assumptions C05_getblock_transparent.
+
+(* ------------------------------------------------------------------ *)
+(* The database read has SNAPSHOT semantics.  A lookup answered by the filter
+   database while other writers commit after its read transaction has ended
+   (XCallW c w: any puts w, in any number of commits) returns the value that
+   was stored under the block when the lookup ran — the first component of
+   the two-phase read db_fetch — without the network, changes neither cache
+   nor queue; the database afterwards is the old one plus exactly the
+   writers' puts, and if they wrote OTHER keys only, the returned filter still
+   is what the database holds for the block. *)
+Theorem C05_db_read_is_snapshot : forall Hf fsize cap persist st c w f,
+  c_ftype_ok c = true ->
+  (forall e, In e (cache (base st)) -> ekey e <> c_blk c) ->
+  db_get (db (base st)) (c_blk c) = Some f ->
+  let st' := fst (xstep Hf fsize cap persist st (XCallW c w)) in
+  let ob := snd (xstep Hf fsize cap persist st (XCallW c w)) in
+  fst (db_fetch (db (base st)) (c_blk c) w) = Some f /\
+  o_res ob = RFilter f /\ o_queried ob = false /\
+  cache (base st') = cache (base st) /\ dbq (base st') = dbq (base st) /\
+  db (base st') = db_put_all (db (base st)) w /\
+  (~ In (c_blk c) (map fst w) -> db_get (db (base st')) (c_blk c) = Some f).
+Proof. exact db_read_snapshot. Qed.
+Print Assumptions C05_db_read_is_snapshot.
+
+(* Puts to other keys never change what a key maps to. *)
+Theorem C05_db_other_keys_untouched : forall w d k,
+  ~ In k (map fst w) -> db_get (db_put_all d w) k = db_get d k.
+Proof. exact db_get_put_all_other. Qed.
+Print Assumptions C05_db_other_keys_untouched.
+
+(* Whatever the overlapping writers store, even under the SAME key, in every
+   state and for every outcome of the call (cache hit, database hit, network,
+   error): result, request, progress reports, cache, queue, headers and the
+   stale flag are those of the undisturbed call; only the database differs,
+   by exactly the writers' puts, and only if a read transaction was opened. *)
+Theorem C05_write_window_only_changes_db : forall Hf fsize cap persist st c w,
+  let sw := xstep Hf fsize cap persist st (XCallW c w) in
+  let s0 := xstep Hf fsize cap persist st (XBase (Call c)) in
+  o_res (snd sw) = o_res (snd s0) /\ o_queried (snd sw) = o_queried (snd s0) /\
+  o_range (snd sw) = o_range (snd s0) /\ o_prog (snd sw) = o_prog (snd s0) /\
+  o_cache (snd sw) = o_cache (snd s0) /\
+  cache (base (fst sw)) = cache (base (fst s0)) /\ dbq (base (fst sw)) = dbq (base (fst s0)) /\
+  hdrs (fst sw) = hdrs (fst s0) /\ xbest (fst sw) = xbest (fst s0) /\ stale (fst sw) = stale (fst s0) /\
+  db (base (fst sw)) = (if read_window (base st) c then db_put_all (db (base st)) w else db (base st)).
+Proof. exact write_window_only_changes_db. Qed.
+Print Assumptions C05_write_window_only_changes_db.
+
+(* Non-vacuity of the new operations (ex_Hf / ex_fh as above, best 5): block 2
+   fetched and persisted; cache reset; GetBlock(2) changes nothing; block 2 is
+   read from the database while writers store blocks 3 and 4 (and overwrite 3
+   again) after the read transaction: filter 101 is returned, the database
+   then holds all three; block 3 from the database. *)
+Example C05_overlap_nonvacuous :
+  let st0 := {| base := {| cache := []; db := []; dbq := [] |}; hdrs := ex_fh; xbest := 5;
+                stale := false; envbad := false |} in
+  let call b rs := {| c_blk := b; c_known := true; c_ftype_ok := true; c_batch := 0; c_maxbatch := 0;
+                      c_resps := rs; c_verdict := VOk |} in
+  let ops := [ XBase (Call (call 2 [ex_r 2 101])); XBase (Flush 10); XBase DropCache; XGetBlock 2;
+               XCallW (call 2 []) [(3, 102); (4, 103); (3, 102)]; XBase (Call (call 3 [])) ] in
+  map (fun o => (o_res o, o_queried o, o_cache o, o_db o)) (xrun ex_Hf (fun _ => 10) 1000 true st0 ops) =
+  [ (RFilter 101, true, [(2, 101)], []);
+    (RNone, false, [(2, 101)], [(2, 101)]);
+    (RNone, false, [], [(2, 101)]);
+    (RNone, false, [], [(2, 101)]);
+    (RFilter 101, false, [], [(3, 102); (4, 103); (2, 101)]);
+    (RFilter 102, false, [], [(3, 102); (4, 103); (2, 101)]) ] /\
+  stale (xfinal ex_Hf (fun _ => 10) 1000 true st0 ops) = false /\
+  envbad (xfinal ex_Hf (fun _ => 10) 1000 true st0 ops) = false.
+Proof. vm_compute. repeat split. Qed.
